@@ -333,7 +333,8 @@ def applyInternal (fp : FilePatch α) (d : Dir) (F : Nat) (mode : Mode) (f : Fil
     | .normal =>
       let changeTo := match d with | .fwd => fp.newPerm | .rev => fp.oldPerm
       match changeTo with
-      | some p => some ({ f' with perms := some p }, { rep with prevDeleted := f.deleted, prevPerms := f.perms })
+      | some p => some ({ f' with perms := if f'.deleted then f'.perms else some p },
+                        { rep with prevDeleted := f.deleted, prevPerms := f.perms })
       | none => some (f', { rep with prevDeleted := f.deleted, prevPerms := f.perms })
 
 /-- `TextFilePatch::apply` -/
